@@ -45,28 +45,28 @@ type Spec struct {
 	loadFailed bool
 
 	// C17
-	variant  int    // Go struct variant of the current handle (1 = the stored structure, 5 = reordered)
-	lastHash string // last directory digest
-	hashMustHold bool
-	mute         bool
-	reopened     bool // the handle was closed / abandoned and reopened at least once
+	variant       int    // Go struct variant of the current handle (1 = the stored structure, 5 = reordered)
+	lastHash      string // last directory digest
+	hashMustHold  bool
+	mute          bool
+	reopened      bool // the handle was closed / abandoned and reopened at least once
 	prevOp        string
 	rmIndexed     bool // the file of an indexed object was removed from outside and nothing since could have dropped its entry or rewritten the file
 	rmU           int
-	repairPhase   int // 1: the last non-observing call was a Repair without error; 2: and Control then succeeded (any history)
-	rejectedSeen  bool // a write call of this history was rejected for a logical reason (unique, invalid, json ...)
+	repairPhase   int            // 1: the last non-observing call was a Repair without error; 2: and Control then succeeded (any history)
+	rejectedSeen  bool           // a write call of this history was rejected for a logical reason (unique, invalid, json ...)
 	lastAll       map[int]string // what the last All returned, by uuid number (nil: not fresh any more)
-	damaged       bool   // an object file or schema.json was damaged from outside in a way Repair does not undo
-	repairedOK    int    // 1: the previous call was a Repair that returned no error (nothing in between); 2: and Control then succeeded
-	afterRepair   string // sweep (count/all) of the handle after that Repair + Control
-	wantSweep     string // an abandoned handle was reopened right after: the new handle must show this sweep
-	switched      bool   // an accepted Create on the existing collection changed cache / asynchronous-write settings (C17)
-	justCommitted string // "flushallc" / "close" when that call returned ok and nothing changed the collection since
-	ticksQuiet   int  // flusher ticks since the last call that may leave a write pending (async)
-	dirty        bool // a write may be pending (async mode, since the last flush / commit / close)
-	outside      bool // the directory was modified from outside (fault ops)
-	loaded       bool // the handle has certainly loaded the schema (some call since the last reopen)
-	memStale     bool // schema.json was edited from outside since the handle loaded it
+	damaged       bool           // an object file or schema.json was damaged from outside in a way Repair does not undo
+	repairedOK    int            // 1: the previous call was a Repair that returned no error (nothing in between); 2: and Control then succeeded
+	afterRepair   string         // sweep (count/all) of the handle after that Repair + Control
+	wantSweep     string         // an abandoned handle was reopened right after: the new handle must show this sweep
+	switched      bool           // an accepted Create on the existing collection changed cache / asynchronous-write settings (C17)
+	justCommitted string         // "flushallc" / "close" when that call returned ok and nothing changed the collection since
+	ticksQuiet    int            // flusher ticks since the last call that may leave a write pending (async)
+	dirty         bool           // a write may be pending (async mode, since the last flush / commit / close)
+	outside       bool           // the directory was modified from outside (fault ops)
+	loaded        bool           // the handle has certainly loaded the schema (some call since the last reopen)
+	memStale      bool           // schema.json was edited from outside since the handle loaded it
 }
 
 // failedWrite: a write call that returned an error, with the sweep taken just before it
@@ -358,7 +358,7 @@ func (s *Spec) Check(e *Exec, t []string) {
 		return
 	}
 	switch t[0] {
-	case "rmfile", "corrupt", "truncfile", "addfile", "rmschema", "rmentry", "stray", "failat", "drop":
+	case "rmfile", "corrupt", "truncfile", "addfile", "rmschema", "rmentry", "rmfentry", "stray", "failat", "drop":
 		s.off = true
 	}
 	if s.off {
@@ -862,7 +862,7 @@ func (s *Spec) checkOrder(e *Exec, t, r []string, sr *specRes) {
 func (s *Spec) stateOracles(e *Exec, t, r []string) {
 	// Repair ... Control ... (sweep) ... abandoned handle reopened: what the new handle shows
 	switch t[0] {
-	case "corrupt", "truncfile", "rmschema", "rmentry", "stray", "drop", "failat", "crashat":
+	case "corrupt", "truncfile", "rmschema", "rmentry", "rmfentry", "stray", "drop", "failat", "crashat":
 		s.damaged = true
 	}
 	switch t[0] {
@@ -872,7 +872,7 @@ func (s *Spec) stateOracles(e *Exec, t, r []string) {
 			s.rmIndexed = true
 			s.rmU, _ = strconv.Atoi(t[1])
 		}
-	case "del", "delall", "sdel", "repair", "reopen", "vopen", "close", "drop", "create", "crashat", "failat", "rmentry", "rmschema",
+	case "del", "delall", "sdel", "repair", "reopen", "vopen", "close", "drop", "create", "crashat", "failat", "rmentry", "rmfentry", "rmschema",
 		"flushall", "flushallc", "flush1", "flush1c", "tick", "addfile":
 		// (the entry may be dropped, or the file written again by a flush of a pending update)
 		s.rmIndexed = false
@@ -945,7 +945,7 @@ func (s *Spec) stateOracles(e *Exec, t, r []string) {
 		}
 	case "flushall", "flushallc", "commit":
 		s.dirty = false
-	case "rmfile", "corrupt", "truncfile", "addfile", "rmschema", "rmentry", "stray", "drop":
+	case "rmfile", "corrupt", "truncfile", "addfile", "rmschema", "rmentry", "rmfentry", "stray", "drop":
 		s.outside = true
 	}
 	switch t[0] {
@@ -955,13 +955,13 @@ func (s *Spec) stateOracles(e *Exec, t, r []string) {
 			s.justCommitted = t[0]
 		}
 	case "ins", "many", "bulk", "del", "delall", "sdel", "create", "recreate", "recreatebad", "repair", "reopen", "vopen", "commit", "flushall",
-		"rmfile", "corrupt", "truncfile", "addfile", "rmschema", "rmentry", "stray", "drop", "failat", "crashat":
+		"rmfile", "corrupt", "truncfile", "addfile", "rmschema", "rmentry", "rmfentry", "stray", "drop", "failat", "crashat":
 		s.justCommitted = ""
 	}
 	switch t[0] {
 	case "reopen", "close", "vopen":
 		s.loaded, s.memStale = false, false
-	case "rmschema", "rmentry":
+	case "rmschema", "rmentry", "rmfentry":
 		s.memStale = true
 	case "count", "all", "get", "getu", "exist", "ins", "many", "bulk", "del", "search", "aidx", "schema", "repair", "commit":
 		if r[0] == "ok" {
